@@ -460,7 +460,9 @@ class PackageGenerator:
                 rdoc = ("", f"Outcome {self.tokens.new('R', fq)}.")
             ex = None
             if r.random() < 0.3:
-                ex = f"{name}({self.tokens.new('X', fq)})"
+                xtok = self.tokens.new("X", fq)
+                ex = f"{name}({xtok})" if r.random() < 0.6 else r.choice([f"{name}({xtok})[..., 0]", f"print('{xtok}...')", f"{name}({xtok}, [1, 2, ...])"])
+                self.tokens.table[xtok]["code"] = ex
             lines.append(self.doc(indent + "    ", self.desc("F", fq), pdocs, rdoc, None, ex, named))
         for b in body:
             lines.append(f"{indent}    {b}")
@@ -610,7 +612,10 @@ class PackageGenerator:
             m.functions.append(fn)
             m.body.append(self.gen_function(m, fn, m.qname))
         if self.f("ENUM") and r.random() < 0.5:
-            m.body.append(self.gen_enum(m, f"Kind{m.name.strip('_').title().replace('_', '')}"))
+            en = f"Kind{m.name.strip('_').title().replace('_', '')}"
+            m.body.append(self.gen_enum(m, en))
+            if not m.name.startswith("_") and "._" not in m.qname:
+                self.class_registry.append((m.qname, en))  # enums are used as types by later modules, like classes
         if not m.name.startswith("_") and "._" not in m.qname:
             for cn in m.public_classes:
                 self.class_registry.append((m.qname, cn))
